@@ -19,7 +19,7 @@ IMPORTS = ("(import (only (chibi io) make-custom-binary-input-port) (only (chibi
            "(import (only (chibi string) string-join) (prefix (only (srfi 130) string-join) s130:) (only (chibi) string-concatenate))"
            "(import (only (chibi io) utf8->string!) (only (chibi) string-cursor-start string-cursor-end "
            "string-cursor-next string-cursor-prev string-cursor-ref string-cursor<? string-cursor>? "
-           "string-cursor->index string-index->cursor string-cursor? substring-cursor %write-string))"
+           "string-cursor->index string-index->cursor string-cursor? substring-cursor %write-string string-cmp))"
            "(import (only (chibi io) read-string!) (prefix (only (srfi 130) string-index string-index-right string-count string-fold "
            "string-for-each-cursor string-copy/cursors string->list/cursors string-take string-drop string-take-right string-drop-right) s130:))")
 
@@ -527,6 +527,22 @@ def coq_op(op):
     return None
 
 
+def coq_xop(op):
+    """the op in the syntax of the extracted driver's hist2 request (C12/HistModel2.v): the base ops plus join with a separator
+    variable, string-fill! and string-copy! with optional ranges"""
+    k = op[0]
+    b = coq_op(op)
+    if b is not None:
+        return b
+    if k == "J" and op[1] in (0, 1, 2):
+        return "J %s %s" % (",".join("%x" % v for v in op[3]) if op[3] else "_", "_" if op[2] < 0 else "%x" % op[2])
+    if k == "F":
+        return "F %x %x %s %s" % (op[1], op[2], zhex(op[3]) if len(op) > 3 else "_", zhex(op[4]) if len(op) > 4 else "_")
+    if k == "Y":
+        return "Y %x %s %x %s %s" % (op[1], zhex(op[2]), op[3], zhex(op[4]) if len(op) > 4 else "_", zhex(op[5]) if len(op) > 5 else "_")
+    return None
+
+
 KINDS = ["list", "string", "utf8", "port", "vector", "append"]
 
 
@@ -543,9 +559,9 @@ def gen_history(rng, wide, maxlen=40):
     for _ in range(nstart):
         cs = rand_cps(rng, 10)
         r = rng.random()
-        if wide and r < 0.25:
+        if wide is True and r < 0.25:
             emit(("H", [rng.randrange(256) for _ in range(rng.choice([1, 2, 4]))], [rng.randrange(256) for _ in range(rng.choice([0, 1, 3]))], cs))
-        elif wide and r < 0.35:
+        elif wide is True and r < 0.35:
             emit(("Q", cs))
         else:
             emit(("L", rng.choice(KINDS) if wide else "list", cs))
@@ -557,7 +573,8 @@ def gen_history(rng, wide, maxlen=40):
         L = len(cs)
         idx = rng.choice([0, L - 1, L, rng.randrange(0, L + 1), rng.randrange(0, L + 1), -1, L + 1])
         core = ["S", "S", "S", "S", "U", "A", "C", "M", "L"]
-        k = rng.choice(core + (["F", "Y", "Y", "R", "W", "B", "G", "V", "E", "T", "X", "P", "H", "J", "J"] if wide else []))
+        k = rng.choice(core + (["F", "Y", "Y", "R", "W", "B", "G", "V", "E", "T", "X", "P", "H", "J", "J"] if wide is True else
+                               ["F", "F", "Y", "Y", "Y", "J", "J"] if wide == "ext" else []))
         if sum(len(x[0]) for x in spec.vars) > 400 and k in ("A", "M", "L", "H", "C", "U", "P", "J"):
             k = "S"
         if k == "S":
@@ -619,7 +636,7 @@ def gen_history(rng, wide, maxlen=40):
                 sepi = rng.randrange(nv)
             else:
                 sepi = -1
-            emit(("J", rng.choice([0, 0, 1, 1, 2, 3, 4]), sepi, [rng.randrange(nv) for _ in range(rng.choice([0, 1, 2, 2, 3, 4]))]))
+            emit(("J", rng.choice([0, 0, 1, 1, 2, 3, 4] if wide is True else [0, 1, 2]), sepi, [rng.randrange(nv) for _ in range(rng.choice([0, 1, 2, 2, 3, 4]))]))
     return ops
 
 
@@ -732,12 +749,15 @@ def shrink(ctx, d, h, k):
     return h
 
 
-def check_outer(ctx, exe, d, n_core, n_wide):
+def check_outer(ctx, exe, d, n_core, n_wide, n_ext=0):
     rng = ctx.rng
     core = [gen_history(rng, False) for _ in range(n_core)]
+    # the extended modelled set (join with separator, string-fill! / string-copy! with ranges and aliasing): three-way through hist2
+    ext = [gen_history(rng, "ext") for _ in range(n_ext)]
     wide = systematic_histories(rng) + [gen_history(rng, True) for _ in range(n_wide)]
     # extracted spec_run + extracted model for the modelled subset
-    mo = ctx.run_model(exe, ["hist " + ";".join(coq_op(o) for o in h) for h in core])
+    mo = ctx.run_model(exe, ["hist " + ";".join(coq_op(o) for o in h) for h in core] + ["hist2 " + ";".join(coq_xop(o) for o in h) for h in ext])
+    core = core + ext
     res = run_histories(ctx, d, core + wide)
     reported = 0
     nbroken = [0]
@@ -761,6 +781,10 @@ def check_outer(ctx, exe, d, n_core, n_wide):
             mf = mo[n].split(" | ")
             for k, e in enumerate(exp):
                 m = mf[k] if k < len(mf) else "?"
+                if m.startswith("P "):
+                    # outside the precondition of the extended history theorem (an invalid fill!/copy! range): the python SPEC and the
+                    # generator never produce one; report it as a generator/SPEC inconsistency rather than comparing
+                    m = "precondition-violated " + m
                 m4 = " ".join(m.split(" ")[:4]) if m != "E" else "E"
                 if m4 != e:
                     nbroken[0] += 1
@@ -1017,11 +1041,12 @@ def check_ports(ctx, exe, d, n_big, n_custom, n_write):
         with open(path, "wb") as fh:
             fh.write(bytes(utf8(cs)))
         exprs.append("(c12-port-run '%s \"%s\" '(%s) '(%s))" % (kind, path, " ".join(map(str, sched)), " ".join(port_op_scm(o) for o in ops)))
-        mlines.append("port %s %x %s %s %s" % ("f" if kind in ("fd", "custom") else "s", PORT_BUF, hx(utf8(cs)), hx(sched),
+        mk = "f" if kind in ("fd", "custom") else "F" if (kind == "file" and "l" not in ops) else "s"     # FILE* read-line is fgets-based: not modelled
+        mlines.append("port %s %x %s %s %s" % (mk, PORT_BUF, hx(utf8(cs)), hx(sched),
                                                ",".join(port_op_model(o) for o in ops)))
     # the extracted model walks unary offsets: ~1-3 s per 8 KB stream, so only a subset of the big streams goes through it
     # (all of the small custom-port ones do); the SPEC judges every case
-    n_model_big = 10 if not ctx.thorough else 150
+    n_model_big = 6 if not ctx.thorough else 150
     with_model = [n for n, c in enumerate(cases) if c[0] == "custom" or len(c[1]) < 200][:]
     with_model = sorted(set(with_model) | set([n for n, c in enumerate(cases) if c[0] != "custom"][:n_model_big]))
     mo_sub = ctx.run_model(exe, [mlines[n] for n in with_model])
@@ -1095,6 +1120,198 @@ def check_ports(ctx, exe, d, n_big, n_custom, n_write):
             k = next((i for i in range(min(len(gl), len(el))) if gl[i] != el[i]), min(len(gl), len(el)))
             ctx.violation("port:%s:write-char" % kind, input=e, expected="bytes %s… (first difference at byte %d: %s)" % (exp[:60], k, hx(el[k:k + 4])),
                           observed="%s" % (hx(gl[k:k + 4]) if gl else str(r)[:200]), replay="chibi-scheme with harness/c12_hist.scm: " + e[:300])
+    try:
+        import shutil
+        shutil.rmtree(pdir)
+    except OSError:
+        pass
+
+
+# ------------------------------------------------------------------------------------------ ill-formed input on ports (round 4)
+class RawPort:
+    """reference semantics of character input on a RAW byte stream (well-formed except at one chosen spot): the two specified
+    error outcomes -- a byte 0x80..0xBF / 0xF8..0xFF where a character should start: error, that byte consumed; a sequence cut off by
+    end of input: error, the cut bytes consumed -- and the standard decoding everywhere else"""
+    def __init__(self, bs):
+        self.b, self.pos = bs, 0
+
+    def _next(self, consume):
+        b, pos, n = self.b, self.pos, len(self.b)
+        if pos >= n:
+            return "eof"
+        x = b[pos]
+        if x < 0x80:
+            if consume: self.pos += 1
+            return x
+        if x < 0xC0 or x > 0xF7:
+            self.pos += 1
+            return "E"
+        need = 1 if x < 0xE0 else 2 if x < 0xF0 else 3
+        if pos + need >= n:
+            self.pos = n
+            return "E"
+        c = ord(bytes(b[pos:pos + need + 1]).decode("utf-8"))
+        if consume: self.pos += need + 1
+        return c
+
+    def step(self, op):
+        if op in ("r", "p"):
+            x = self._next(op == "r")
+            return x if x in ("eof", "E") else "c%x" % x
+        if op == "u":
+            if self.pos >= len(self.b): return "eof"
+            self.pos += 1
+            return "u%x" % self.b[self.pos - 1]
+        if op == "d":
+            acc = []
+            while True:
+                x = self._next(True)
+                if x == "eof": return "d:" + hx(acc)
+                if x == "E": return "E"
+                acc.append(x)
+        if op == "l":
+            acc, i = [], 0
+            while True:
+                x = self._next(False)
+                if x == "E": return "E"
+                if x == "eof": return ("l:" + hx(acc)) if acc else "eof"
+                if x == 0x0A:
+                    self._next(True)
+                    return "l:" + hx(acc)
+                if x == 0x0D:
+                    self._next(True)
+                    y = self._next(False)
+                    if y == "E": return "E"
+                    if y == 0x0A: self._next(True)
+                    return "l:" + hx(acc)
+                if i >= 8192: return "l:" + hx(acc)
+                self._next(True)
+                acc.append(x); i += 1
+        if op[0] == "s":
+            k, acc = op[1], []
+            if k == 0: return "s:_"
+            while len(acc) < k:
+                x = self._next(False)
+                if x == "E": return "E"
+                if x == "eof": break
+                self._next(True)
+                acc.append(x)
+            return ("s:" + hx(acc)) if acc else "eof"
+        raise ValueError(op)
+
+
+def gen_illformed_cases(ctx, n_big):
+    """-> (kind, raw bytes, sched, ops, class): streams ending inside a 2/3/4-byte character at EVERY cut point, and invalid lead bytes
+    0x80..0xBF / 0xF8..0xFF, for read-char / peek-char / read-string / read-line on fd, bytevector, string, custom and FILE* ports; short
+    streams (custom ports refill inside and around the bad spot in every way) and big ones whose bad spot lies on the 4092 / 4096 buffer boundary"""
+    rng = ctx.rng
+    cases = []
+    spots = [("truncated-w%d-k%d" % (w, k), w, k) for w in (2, 3, 4) for k in range(1, w)]
+    INV = [0x80, 0xBF, 0xF8, 0xFF]
+
+    def one(kind, prefix_cs, spot, op, sched_mode, tail_cs=None):
+        pre = utf8(prefix_cs)
+        if spot[0].startswith("truncated"):
+            _, w, k = spot
+            bad = utf8([rng.choice(BY_WIDTH[w])])[:k]
+            raw = pre + bad
+        else:
+            raw = pre + [spot[1]] + utf8(tail_cs)
+        m = rng.choice([0, 0, 1, 2]) if len(prefix_cs) >= 2 else 0        # characters of the prefix left for the operation under test
+        ops = []
+        if len(prefix_cs) - m > 0:
+            ops.append(("s", len(prefix_cs) - m))
+        if op == "s":
+            ops.append(("s", m + rng.choice([1, 1, 2, 5])))
+        elif op in ("r", "p"):
+            ops += ["r"] * m + [op]
+        else:
+            ops.append(op)
+        ops += ["p", "r", "p", "d", "r"]
+        if sched_mode == "fine":
+            sched, left = [], len(raw)
+            while left > 0:
+                x = rng.choice([1, 1, 1, 2, 3]); sched.append(x); left -= x
+        else:
+            sched = []
+        cases.append((kind, raw, sched, ops, spot[0]))
+
+    for kind in ("fd", "bytevector", "string", "custom", "custom", "file"):
+        for spot in spots + [("invalid-lead-%s" % ("80-bf" if b < 0xC0 else "f8-ff"), b) for b in INV]:
+            for op in ("r", "p", "s", "l"):
+                if kind == "file" and op == "l":
+                    continue        # read-line on FILE* ports is fgets-based (%%read-line): the bytes are not decoded there
+                prefix = [c for c in [rand_cp(rng) for _ in range(rng.choice([0, 1, 2, 3, 5]))] if c not in (0x0A, 0x0D)]
+                tail = [c for c in [rand_cp(rng) for _ in range(rng.choice([1, 2, 3]))] if c not in (0x0A, 0x0D)] or [0x3BB]
+                one(kind, prefix, spot, op, "fine" if kind == "custom" else "", tail)
+    # big: the bad spot straddles / touches the refill boundary of the real 4096-byte buffers
+    for n in range(n_big):
+        kind = rng.choice(["fd", "fd", "file", "custom"])
+        base = {"fd": PORT_BUF - BUF_START, "file": PORT_BUF, "custom": PORT_BUF - BUF_START}[kind]
+        spot = rng.choice(spots) if n % 2 == 0 else ("invalid-lead-%s" % rng.choice(["80-bf", "f8-ff"]), 0)
+        if not spot[0].startswith("truncated"):
+            spot = (spot[0], rng.choice([0x80, 0xA9, 0xBF]) if spot[0].endswith("80-bf") else rng.choice([0xF8, 0xFB, 0xFF]))
+        j = rng.randrange(0, 4)                      # the bad element starts j bytes before the boundary
+        prefix = [c for c in filler(rng, base - j, 10 ** 9)]
+        tail = [rng.choice(BY_WIDTH[rng.choice([1, 2, 3, 4])]), 0x41]
+        op = rng.choice(["r", "p", "s"] + ([] if kind == "file" else ["l"]))
+        one(kind, prefix, spot, op, "", tail)
+        cases[-1] = cases[-1][:4] + (cases[-1][4] + ":at-refill",)
+    return cases
+
+
+def check_illformed_ports(ctx, exe, d, n_big):
+    pdir = os.path.join(B.SCRATCH, "c12-badports")
+    os.makedirs(pdir, exist_ok=True)
+    cases = gen_illformed_cases(ctx, n_big)
+    prelude = open(os.path.join(HARNESS, "c12_hist.scm")).read()
+    exprs, mlines, exps = [], [], []
+    for n, (kind, raw, sched, ops, cls) in enumerate(cases):
+        path = os.path.join(pdir, "bad-%d.bin" % n)
+        with open(path, "wb") as fh:
+            fh.write(bytes(raw))
+        exprs.append("(c12-port-run '%s \"%s\" '(%s) '(%s))" % (kind, path, " ".join(map(str, sched)), " ".join(port_op_scm(o) for o in ops)))
+        mk = {"fd": "f", "custom": "f", "file": "F"}.get(kind, "s")
+        mlines.append("port %s %x %s %s %s" % (mk, PORT_BUF, hx(raw), hx(sched), ",".join(port_op_model(o) for o in ops)))
+        sp = RawPort(raw)
+        exps.append([sp.step(o) for o in ops])
+    small = [n for n, c in enumerate(cases) if len(c[1]) < 200]
+    bigm = [n for n, c in enumerate(cases) if len(c[1]) >= 200][:(4 if not ctx.thorough else 60)]
+    with_model = sorted(small + bigm)
+    mo = dict(zip(with_model, ctx.run_model(exe, [mlines[n] for n in with_model])))
+    res = scm.run_cases(d, exprs, prelude_extra=prelude, imports=IMPORTS, chunk=60, timeout=60)
+    reported, nb = {}, 0
+    for n, (kind, raw, sched, ops, cls) in enumerate(cases):
+        exp = exps[n]
+        got = parse_fields(res[n]) if res[n] and not res[n].startswith(("TIMEOUT", "CRASH", "ERR")) else None
+        ctx.count(1, key=("badport", kind, tuple(raw[-12:]), len(raw), tuple(sched), tuple(ops)), nontrivial=True)
+        ctx.cov["traces_validated_against_impl"] += 1
+        mf = mo[n].split(" | ") if n in mo and mo[n] is not None else None
+        if mf is not None and mf != exp:
+            nb += 1
+            if nb <= 5:
+                k = next((i for i in range(len(exp)) if i >= len(mf) or mf[i] != exp[i]), 0)
+                ctx.broken("correspondence:port-model-vs-spec:ill-formed", "%s op %d (%s): model %r, SPEC %r" % (mlines[n][-200:], k, ops[k], mf[k] if k < len(mf) else None, exp[k]))
+        bad = None
+        if got is None:
+            bad = 0
+        else:
+            bad = next((k for k, e in enumerate(exp) if k >= len(got) or got[k] != e), None)
+        if bad is None:
+            continue
+        opn = ops[bad] if isinstance(ops[bad], str) else "s"
+        name = {"r": "read-char", "p": "peek-char", "l": "read-line", "d": "read-char", "s": "read-string"}[opn]
+        sig = ("crash-or-hang:port:%s:ill-formed" % kind) if got is None else "port:%s:%s:%s" % (kind, name, cls)
+        reported[sig] = reported.get(sig, 0) + 1
+        if reported[sig] > 2 or len(reported) > 40:
+            continue
+        txt = "(c12-port-run/bytes '%s \"%s\" '(%s) '(%s) '(%s))" % (kind, os.path.join(B.SCRATCH, "c12-port-replay.bin"), " ".join(map(str, raw)),
+                                                                     " ".join(map(str, sched)), " ".join(port_op_scm(o) for o in ops[:bad + 1]))
+        ctx.violation(sig, input=txt if len(txt) < 3000 else "... " + txt[-3000:], step=bad, expected=exp[bad] if got is not None else " | ".join(exp[:6]),
+                      observed=(got[bad] if got is not None and bad < len(got) else str(res[n])[:300]), model=(mf[bad] if mf and bad < len(mf) else None),
+                      replay="./check C12 --replay <this file>   # or: chibi-scheme with vlib/scm.py PRELUDE + harness/c12_hist.scm, then the input expression")
+    if cases:
+        ctx.sample(dict(kind="port-ill-formed", request=exprs[0][:300], impl=str(res[0])[:300], model=str(mo.get(0))[:300], spec=" | ".join(exps[0])))
     try:
         import shutil
         shutil.rmtree(pdir)
@@ -1178,9 +1395,10 @@ RANGE_NAMES = {"ws": "write-string", "wo": "%write-string", "di": "display", "sc
                "sy": "string-copy!", "sm": "string-map", "se": "string-for-each", "rs": "read-string", "rb": "read-string!",
                "cu": "substring-cursor", "cc": "string-copy/cursors", "cl": "string->list/cursors",
                "ix": "string-index", "rx": "string-index-right", "ct": "string-count", "fo": "string-fold", "fc": "string-for-each-cursor",
-               "tk": "string-take/drop", "cm": "string-comparison"}
+               "tk": "string-take/drop", "cm": "string-comparison", "ci": "string-ci", "cf": "char-foldcase"}
 EURO = [0xE2, 0x82, 0xAC]
 RANGE_MODEL = True
+SIMPLE_NEWER = {0x1FD3: 0x390, 0x1FE3: 0x3B0, 0xFB05: 0xFB06}      # simple case foldings newer than python's Unicode data: either answer
 
 
 def gen_range_cases(ctx, n_strings, n_big):
@@ -1265,7 +1483,8 @@ def gen_range_cases(ctx, n_strings, n_big):
             cols = list(zip(*ls))
             args = " ".join(str_spec(rng, x) for x in ls)
             if all(is_scalar(max(col)) for col in cols):
-                add("sm", "(sm %s)" % args, sobs([max(col) for col in cols]), "n%d" % k, cs)
+                add("sm", "(sm %s)" % args, sobs([max(col) for col in cols]), "n%d" % k, cs,
+                    model="smapn %x %s" % (rng.choice([1, 3, 7, PORT_BUF]), ";".join(hx(x) for x in ls)))
             add("se", "(se %s)" % args, hx([sum(col) for col in cols]), "n%d" % k, cs)
         # read-string / read-string! on every kind of input port: k = 0, 1, middle, len, len + 1
         for k in sorted(set([0, 1, rng.randrange(1, L + 1), L, L + 1])):
@@ -1320,6 +1539,54 @@ def gen_range_cases(ctx, n_strings, n_big):
         if len(ls) == 2:
             sgn = (ls[0] > ls[1]) - (ls[0] < ls[1])
             cases.append(("cmx", None, str(sgn), "", True, "cmp %s %s" % (hx(ls[0]), hx(ls[1]))))
+    # case-insensitive comparison with MULTI-BYTE cased characters.  Oracle: python's str.casefold() (full case folding, independent of
+    # chibi's tables; it agrees with the regenerated tables on every scalar value for Unicode 14) for the (scheme char) predicates and
+    # string-foldcase; ASCII-only folding for the core (string-cmp a b #t); the extracted model (regenerated tables) three-way
+    CASED = [0x391, 0x3B1, 0x3A3, 0x3C3, 0x3C2, 0x410, 0x430, 0x401, 0x451, 0xC0, 0xE0, 0xDE, 0xFE, 0xDF, 0x1E9E, 0x130, 0x131, 0x149, 0x17F, 0x53,
+             0x212A, 0x6B, 0x4B, 0x212B, 0xE5, 0xC5, 0x10400, 0x10428, 0x104B0, 0x104D8, 0x1E900, 0x1E922, 0x531, 0x561, 0x587, 0xFB01, 0xFB00, 0x66,
+             0x13A0, 0xAB70, 0x10A0, 0x2D00, 0x1C90, 0x10D0, 0x24B6, 0x24D0, 0xFF21, 0xFF41, 0x1F88, 0x1F80, 0x3B9, 0x390, 0x1FD3, 0x41, 0x61, 0x5A, 0x7A,
+             0x20AC, 0x4E2D, 0x1F600, 0x0, 0x7F, 0x80]
+    cfold = lambda l: [ord(x) for x in "".join(chr(c) for c in l).casefold()]
+    afold = lambda l: [c + 32 if 0x41 <= c <= 0x5A else c for c in l]
+
+    def partner(c):
+        ch = chr(c)
+        opts = [c]
+        for t in (ch.upper(), ch.lower(), ch.casefold()):
+            if len(t) == 1 and is_scalar(ord(t)):
+                opts.append(ord(t))
+        return rng.choice(opts)
+    for k in range(8 * n_strings):
+        a = [rng.choice(CASED) for _ in range(rng.choice([1, 2, 3, 5]))]
+        form = rng.choice(["partner", "partner", "diff", "prefix", "expand"])
+        if form == "partner": b = [partner(c) for c in a]
+        elif form == "diff": b = [partner(c) for c in a[:-1]] + [rng.choice(CASED)]
+        elif form == "prefix": b = [partner(c) for c in a] + [rng.choice(CASED)]
+        else: b = cfold(a) if rng.random() < 0.7 else [partner(c) for c in cfold(a)]         # e.g. "Straße" vs "strasse" / "STRASSE"
+        if rng.random() < 0.5:
+            a, b = b, a
+        fa, fb = cfold(a), cfold(b)
+        ca, cb = afold(a), afold(b)
+        exp = "%s%s%s %d %s" % (tf(fa == fb), tf(fa < fb), tf(fa > fb), (ca > cb) - (ca < cb), hx(fa))
+        q = [c for c in a + b if c in (0x22, 0x5C)]
+        add("ci", "(ci %s %s)" % ("(list %s)" % " ".join(map(str, a)) if rng.random() < 0.5 or q else str_spec(rng, a),
+                                 "(list %s)" % " ".join(map(str, b)) if rng.random() < 0.5 or q else str_spec(rng, b)),
+            exp, "%s:%s" % (form, "folded-equal" if fa == fb else "folded-different"), a + b, model="ci %s %s" % (hx(a), hx(b)))
+    # char-foldcase / string-foldcase of every character of the cased blocks (quick) or of every scalar value (thorough)
+    blocks = ([(0x0, 0x600), (0x10A0, 0x1100), (0x13A0, 0x1400), (0x1C80, 0x1CC0), (0x1E00, 0x2000), (0x2100, 0x2190), (0x24B0, 0x24F0), (0x2C00, 0x2D30),
+               (0xA640, 0xA7FF), (0xAB70, 0xABC0), (0xFB00, 0xFB20), (0xFF20, 0xFF60), (0x10400, 0x10450), (0x104B0, 0x10500), (0x10C80, 0x10CC0),
+               (0x118A0, 0x118E0), (0x16E40, 0x16E80), (0x1E900, 0x1E950)] if not ctx.thorough else
+              [(lo, min(lo + 0x2000, 0x110000)) for lo in range(0, 0x110000, 0x2000)])
+    for lo, hi in blocks:
+        items = []
+        for c in range(lo, hi):
+            if not is_scalar(c):
+                continue
+            f = chr(c).casefold()
+            l = chr(c).lower()
+            simple = ord(f) if len(f) == 1 else (ord(l) if len(l) == 1 else c)
+            items.append((c, simple, [ord(x) for x in f]))
+        cases.append(("cf", "(cf %d %d)" % (lo, hi), items, "%x-%x" % (lo, hi), True, None))
     # long strings: the written slice crosses the 4096-byte output buffer, a multi-byte character cut by it
     for k in range(n_big):
         cs = [c for c in filler(rng, rng.choice([5000, 8200, 9000]), 10 ** 9) if c not in (0x22, 0x5C)]
@@ -1375,6 +1642,32 @@ def check_ranges(ctx, exe, d, n_strings, n_big):
                     ctx.broken("correspondence:range-model-vs-spec", "%s: extracted model %r, SPEC %r" % (mreq[:200], m[:200], exp[:200]))
             if got is None:
                 continue
+            if op == "cf":
+                # got: "c>simple>f+f,..." for every scalar of the block
+                gd = {}
+                for it in (got[k].split(",") if got[k] not in ("_", "") else []):
+                    try:
+                        c_, s_, f_ = it.split(">")
+                        gd[int(c_, 16)] = (int(s_, 16), [int(x, 16) for x in f_.split("+")])
+                    except ValueError:
+                        gd = None
+                        break
+                badc = None
+                if gd is None or len(gd) != len(exp):
+                    badc = (exp[0][0], "one entry per scalar value", got[k][:200])
+                else:
+                    for c_, simple, full in exp:
+                        gs, gf = gd.get(c_, (None, None))
+                        if gf != full or (gs != simple and SIMPLE_NEWER.get(c_) != gs):
+                            badc = (c_, "char-foldcase %x, string-foldcase %s" % (simple, hx(full)), "char-foldcase %s, string-foldcase %s" % (zhex(gs) if gs is not None else "?", hx(gf or [])))
+                            break
+                if badc is not None:
+                    sig = "char-foldcase:%s" % ("ascii" if badc[0] < 0x80 else "w%d" % width(badc[0]))
+                    reported[sig] = reported.get(sig, 0) + 1
+                    if reported[sig] <= 2:
+                        ctx.violation(sig, input="(c12-range-run \"%s\" '((cf %d %d)))" % (os.path.join(B.SCRATCH, "c12-range-replay.bin"), badc[0], badc[0] + 1), step=0,
+                                      expected=badc[1], observed=badc[2], replay="chibi-scheme: (char-foldcase (integer->char #x%x)) (string-foldcase (string (integer->char #x%x)))" % (badc[0], badc[0]))
+                continue
             if got[k] != exp:
                 sig = "range:%s:%s" % (RANGE_NAMES[op], cls)
                 reported[sig] = reported.get(sig, 0) + 1
@@ -1395,6 +1688,8 @@ def check_ranges(ctx, exe, d, n_strings, n_big):
             single = scm.run_cases(d, ["(c12-range-run \"%s\" '(%s))" % (path, c[1]) for c in g], prelude_extra=prelude, imports=IMPORTS, chunk=1, timeout=30)
             found = False
             for c, r1 in zip(g, single):
+                if c[0] == "cf" and r1 and not r1.startswith(("TIMEOUT", "CRASH", "ERR")):
+                    continue
                 f1 = parse_fields(r1) if r1 and not r1.startswith(("TIMEOUT", "CRASH", "ERR")) else None
                 if f1 is None or f1[0] != c[2]:
                     found = True
@@ -1432,18 +1727,36 @@ def run(ctx):
     from gen import c12_leaf
     d = ctx.build("default")
     sigs = c12_leaf.regen(ctx, d)
+    from gen import c12_casefold
+    c12_casefold.regen(ctx, d)          # coq/Gen/C12_CaseFold.v: char-foldcase-map and special-cases of lib/scheme/char/*.scm
     ctx.coq_obligations("Properties_C12")
     exe = ctx.extract("C12")
     if exe is None:
         return
     emb = B.cc_embed(d, os.path.join(HARNESS, "embed_c12.c"), os.path.join(d, "embed_c12"))
+    import time as _t
+    _t0 = [_t.time()]
+
+    def lap(name):
+        if os.environ.get("C12_TIMING"):
+            print("C12-TIMING %-10s %.1fs" % (name, _t.time() - _t0[0]), flush=True)
+        _t0[0] = _t.time()
+    lap("coq+build")
     corpus_first(ctx, exe, emb, d)
     check_leaves(ctx, exe, emb, d)
+    lap("leaves")
     check_inner(ctx, exe, emb, d, 2500 if not ctx.thorough else 120000)
-    check_outer(ctx, exe, d, 500 if not ctx.thorough else 30000, 900 if not ctx.thorough else 70000)
+    lap("inner")
+    check_outer(ctx, exe, d, 400 if not ctx.thorough else 25000, 800 if not ctx.thorough else 65000, 200 if not ctx.thorough else 10000)
+    lap("outer")
     check_sweep(ctx, d)
-    check_ports(ctx, exe, d, *( (60, 500, 24) if not ctx.thorough else (1500, 30000, 400) ))
+    lap("sweep")
+    check_ports(ctx, exe, d, *( (48, 450, 20) if not ctx.thorough else (1500, 30000, 400) ))
+    lap("ports")
+    check_illformed_ports(ctx, exe, d, 24 if not ctx.thorough else 1200)
+    lap("badports")
     check_ranges(ctx, exe, d, *( (10, 8) if not ctx.thorough else (250, 100) ))
+    lap("ranges")
     ctx.assume("configuration: SEXP_USE_UTF8_STRINGS=1, mutable strings, no string index table, no string-ref cache (the defaults)")
     ctx.assume("strings sharing one byte store with another live string or bytevector (only utf8->string! creates them) are outside the "
                "history theorem; the aliasing theorem says exactly when a store is written in place")
